@@ -204,7 +204,7 @@ def enum_level0(tier):
 PARTS = [
     Part("all_tiles_small_depth", exec_tile, enumerate=enum_tiles, shards={"quick": 16, "thorough": 16}, budget_s={"quick": 80, "thorough": 1500},
          describe="every tile with 1<=n<=3 (quick) / <=5 (thorough), all 65536 pixels, both systems"),
-    Part("sampled_tiles", exec_tile, strategy=strat_tiles, examples={"quick": 100, "thorough": 6000}, shards={"quick": 16, "thorough": 16},
+    Part("sampled_tiles", exec_tile, strategy=strat_tiles, examples={"quick": 200, "thorough": 6000}, shards={"quick": 16, "thorough": 16},
          budget_s={"quick": 60, "thorough": 1200}, describe="generated tiles to depth 16 (incl. the square's corner tile), all pixels, both systems"),
     Part("level0_grid", exec_level0, enumerate=enum_level0, shards={"quick": 2, "thorough": 2}, budget_s={"quick": 60, "thorough": 60},
          describe="the level-0 tile's grid as handed to a sampler of a depth-0 layer, both systems"),
